@@ -4,12 +4,15 @@ from .. import lbgen
 from . import c02
 
 ID = "C06"
-MODULES = ["Helios.Props.C06", "Helios.Props.Facts", "Helios.Props.CodeHash"]
+MODULES = ["Helios.Props.C06", "Helios.Props.Facts", "Helios.Props.CodeHash", "Helios.Props.CodeAddr"]
 THEOREMS = ["Helios.LB.jump_range'", "Helios.LB.jump_monotone'", "Helios.LB.jump_no_overflow",
             "Helios.LB.affinity", "Helios.LB.hash_stateless", "Helios.LB.key_ignores_port",
             "Helios.LB.choice_valid", "Helios.LB.append_minimal",
             "Helios.Facts.jump_mul_eq", "Helios.Facts.extraction_clean",
-            "Helios.CodeTie.jumpHash_refines", "Helios.CodeTie.translation_clean_hash"]
+            "Helios.CodeTie.jumpHash_refines", "Helios.CodeTie.translation_clean_hash",
+            # Tie C: NextBackend of both hash strategies, translated from the source on every run (strings as byte strings)
+            "Helios.CodeTie.ipNext_refines", "Helios.CodeTie.ipcNext_refines", "Helios.CodeTie.ipNext_same_key",
+            "Helios.CodeTie.ipcNext_same_key", "Helios.CodeTie.key_refines", "Helios.CodeTie.translation_clean_addr"]
 
 KEYS = ["10.0.0.%d" % i for i in range(1, 40)] + ["2001:db8::%x" % i for i in range(1, 12)] + [
     "junk", "", " ", "a,b", ",", "10.0.0.1, 10.0.0.2", " x", "x" * 200, "::1", "[::1]", "1.2.3.4:5", "%", "+"]
